@@ -29,6 +29,8 @@ import (
 	"bytes"
 	"encoding/json"
 	"fmt"
+	"math"
+	"math/big"
 	"os"
 	"reflect"
 	"regexp"
@@ -764,6 +766,118 @@ func emit(out *kit.Out, id string, lines []string) {
 var binOps = []string{"+", "-", "*", "/", "%", "AND", "OR", "==", "!=", "<", ">", "<=", ">=", "=~", "!~"}
 
 var numPool = []string{"0", "1", "42", "007", "010", "0777", "00", "9007199254740993", "9223372036854775807", "1.0", "1.50", "0.25", ".5", "3.", "100.125", "00.50", "123456789.125"}
+// Number literals of the value classes newNumber / NumberNode.Format / the JSON codec treat differently. Source
+// spelling is `digits.digits` (TICKscript has no exponent form): whole floats at and beyond 2^63 (where an int64
+// conversion overflows) up to the largest finite binary64, floats that need 16 / 17 significant digits, literals
+// with more digits than a binary64 holds (rounding, ties), very small fractions down to the smallest subnormal,
+// integers at the int64 boundaries in decimal and octal.
+var maxFloatDigits = new(big.Float).SetFloat64(math.MaxFloat64).Text('f', 0)
+
+var hugeFloatPool = []string{
+	"10000000000000000000.0",            // 1e19
+	"9223372036854775808.0",             // 2^63
+	"9223372036854775807.0",             // rounds to 2^63
+	"9223372036854774784.0",             // the binary64 below 2^63
+	"9223372036854777856.0",             // the binary64 above 2^63
+	"18446744073709551616.0",            // 2^64
+	"18446744073709551615.0",            // rounds to 2^64
+	"1000000000000000000000000000000.0", // 1e30
+	"100000000000000000000000.0",        // 1e23 (shortest text is not the nearest 1-digit decimal)
+	"123456789012345678901234567890.5",
+	"340282366920938463463374607431768211456.0", // 2^128
+	maxFloatDigits + ".0",
+	maxFloatDigits + ".",
+	"9" + maxFloatDigits[1:] + ".0", // beyond the largest finite binary64: rejected (value out of range)
+}
+var digitFloatPool = []string{
+	"4611686018427387904.0", // 2^62: the int64 conversion is still exact
+	"9007199254740993.0",    // 2^53+1: tie, rounds to even
+	"9007199254740992.0", "9007199254740994.0", "4503599627370497.5", "4503599627370496.5",
+	"0.1", "0.30000000000000004", "0.1000000000000000055511151231257827", "2.2250738585072014", "1.7976931348623157",
+	"5e-324-in-digits", "0.000001", "0.0000001", "0.000000000000000000001", "0.00000000000000000000000000000123456789012345678",
+	"123456.7890123456789", "1.0000000000000002", "0.99999999999999989", "72057594037927945.0", "0.", "0.000",
+}
+var intEdgePool = []string{"9223372036854775807", "9223372036854775806", "4611686018427387904", "9007199254740993",
+	"0777777777777777777777", "0400000000000000000000", "00000000000000000000000007", "1000000000000000000"}
+
+func exactDigits(f float64) string {
+	s := new(big.Float).SetFloat64(f).Text('f', 1100)
+	if strings.Contains(s, ".") {
+		s = strings.TrimRight(s, "0")
+		if strings.HasSuffix(s, ".") {
+			s += "0"
+		}
+	}
+	return s
+}
+
+// hardFloat: a non-negative float literal of one of the hard classes, as source text
+func hardFloat(r *kit.Rand) string {
+	spell := func(f float64) string {
+		if r.Chance(1, 3) {
+			return exactDigits(f) // every digit of the binary value
+		}
+		return fmtFloat(f) // the shortest spelling
+	}
+	switch r.Intn(8) {
+	case 0, 1:
+		return kit.Pick(r, hugeFloatPool)
+	case 2:
+		s := kit.Pick(r, digitFloatPool)
+		if s == "5e-324-in-digits" {
+			s = exactDigits(math.SmallestNonzeroFloat64)
+			if r.Bool() {
+				s = fmtFloat(math.SmallestNonzeroFloat64)
+			}
+		}
+		return s
+	case 3:
+		// a random whole binary64 in [2^63, 2^120)
+		return spell(math.Ldexp(float64(uint64(1)<<52|r.U64()>>12), 11+r.Intn(57)))
+	case 4:
+		// a random binary64 around 1 with a full mantissa: 16 or 17 significant digits
+		return spell(math.Ldexp(float64(uint64(1)<<52|r.U64()>>12), -52-r.Intn(8)+r.Intn(8)))
+	case 5:
+		// a random small fraction, down to the subnormals
+		e := -60 - r.Intn(40)
+		if r.Chance(1, 4) {
+			e = -1074 + r.Intn(60)
+		}
+		return fmtFloat(math.Ldexp(float64(uint64(1)<<52|r.U64()>>12), e-52))
+	case 6:
+		// a whole float between 2^53 and 2^63: digits beyond the mantissa, int64 still holds it
+		return spell(math.Ldexp(float64(uint64(1)<<52|r.U64()>>12), 1+r.Intn(10)))
+	default:
+		// a decimal with more digits than a binary64 keeps
+		n := 16 + r.Intn(12)
+		b := make([]byte, n)
+		for i := range b {
+			b[i] = byte('0' + r.Intn(10))
+		}
+		if b[0] == '0' {
+			b[0] = '1'
+		}
+		k := r.Intn(n + 1)
+		return string(b[:k]) + "." + string(b[k:])
+	}
+}
+
+func hardFloatNonZero(r *kit.Rand) string {
+	for {
+		s := hardFloat(r)
+		if f, err := strconv.ParseFloat(s, 64); err == nil && f != 0 {
+			return s
+		}
+	}
+}
+
+func hardNum(r *kit.Rand) string {
+	if r.Chance(1, 4) {
+		return kit.Pick(r, intEdgePool)
+	}
+	return hardFloat(r)
+}
+
 var durPool = []string{"1s", "10ms", "5m", "2h", "1d", "3w", "7u", "9µ", "0s", "90m", "1500ms"}
 var strBodies = []string{"", "a", "cpu", "it's", "a b", "a\\b", "a\\\\b", "tab\there", "é", "x/y", "a\"b", "100%", "'", "\\'", "a''b", "line1\nline2"}
 var tripleBodies = []string{"a", "it's", "a\\", "a\\b", "say 'hi' there", "x\ny", "a''b", "\\"}
@@ -804,7 +918,7 @@ func (g *exprGen) atom() string {
 	case 6:
 		return kit.Pick(r, identPool)
 	case 7:
-		return kit.Pick(r, numPool)
+		return hardNum(r)
 	default:
 		return "\"" + kit.Pick(r, refBodies) + "\""
 	}
@@ -903,9 +1017,25 @@ func (g *exprGen) tree(d int, rxOK bool, out *[]string) {
 		}
 		switch a {
 		case 0:
-			add("num", "i", "10", kit.Pick(r, []string{"0", "5", "-5", "-1", "9007199254740993", "-9223372036854775807", "123", "9223372036854775807"}))
+			add("num", "i", "10", kit.Pick(r, []string{"0", "5", "-5", "-1", "9007199254740993", "-9223372036854775807", "123", "9223372036854775807", "-9007199254740993", "9223372036854775806", "4611686018427387904"}))
 		case 1:
-			add("num", "f", kit.Pick(r, []string{"1.5", "-2.5", "0.0", "3.0", "100.125"}))
+			if r.Bool() {
+				add("num", "f", kit.Pick(r, []string{"1.5", "-2.5", "0.0", "3.0", "100.125", "-0.0"}))
+			} else {
+				// a float VALUE of a hard class (as pipeline/tick and the JSON decoder hand them to Format), in the
+				// canonical spelling the dumps use; negative ones and negative zero included
+				f, err := strconv.ParseFloat(hardFloat(r), 64)
+				for err != nil { // the out-of-range literal of the pool is not a value
+					f, err = strconv.ParseFloat(hardFloat(r), 64)
+				}
+				if r.Chance(1, 3) {
+					f = -f
+				}
+				if r.Chance(1, 12) {
+					f = math.Copysign(0, -1)
+				}
+				add("num", "f", fmtFloat(f))
+			}
 		case 2:
 			add("dur", kit.Pick(r, []string{"1000000000", "0", "-60000000000", "1500000", "1000", "3600000000000", "90000000000", "604800000000000"}), "%")
 		case 3:
